@@ -365,7 +365,35 @@ def intr_unreachable(it, st, fn, args, dest, target):
     raise PathEnd("memory-error", "intrinsics::unreachable reached")
 
 
+# ------------------------------------------------------------------------------------------
+# HashSet<*const ()> with set semantics (hashing needs OS randomness; the container itself is trusted)
+# ------------------------------------------------------------------------------------------
+def hashset_new(it, st, fn, args, dest, target):
+    sets = getattr(st, "sets", None)
+    st.sets = dict(sets) if sets else {}
+    sid = len(st.sets) + 1
+    st.sets[sid] = ()
+    it.ret_blob(st, dest, target, [(0, 8, 0x5E7000 + sid)])
+
+
+def hashset_insert(it, st, fn, args, dest, target):
+    pr = _ptr_place(it, st, args[0])
+    sid = st.read_scalar(pr.alloc, pr.off, 8) - 0x5E7000
+    v = _scalar(it, st, args[1], 8)
+    if not isinstance(v, Ptr):
+        v = it.concretize(st, v)
+    st.sets = dict(st.sets)
+    cur = st.sets[sid]
+    present = any(x == v for x in cur)
+    if not present:
+        st.sets[sid] = cur + (v,)
+    it.ret_scalar(st, dest, target, 0 if present else 1, 1)
+
+
 def register(it):
+    it.summaries_contains.append(("drop_in_place::<std::collections::HashSet<", noop))
+    it.summaries_contains.append(("std::collections::HashSet::<*const ()>::with_capacity", hashset_new))
+    it.summaries_contains.append(("std::collections::HashSet::<*const ()>::insert", hashset_insert))
     s = it.summaries
     p = "happylock::verif_harness::env::eng::"
     s[p + "verif_any_u8"] = verif_any_u8
